@@ -58,7 +58,9 @@ func (m mset) key() string {
 var depKeys = []dep.AttrKey{dep.Dev, dep.Opt, dep.Test, dep.XTest, dep.Framework, dep.Scope, dep.MavenClassifier, dep.MavenArtifactType, dep.MavenDependencyOrigin, dep.MavenExclusions, dep.EnabledDependencies, dep.KnownAs, dep.Environment, dep.Selector}
 var verKeys = []version.AttrKey{version.Blocked, version.Deleted, version.Error, version.Redirect, version.Features, version.DerivedFrom, version.NativeLibrary, version.Registries, version.SupportedFrameworks, version.DependencyGroups, version.Ident, version.Created, version.Tags}
 
-var values = []string{"", "x", "y", "a b", "peer", "\"q\"", "back\\slash", "end\\", "ünï", "a  b", " lead", "trail ", "{\"default\":[]}", "python_version < \"3.7\" and os_name == 'posix'", "1,2", "a:b", "tab\there", "new\nline", "pi|pe", "ha#sh", "x: y", "$1"}
+var values = []string{"", "x", "y", "a b", "peer", "\"q\"", "back\\slash", "end\\", "ünï", "a  b", " lead", "trail ", "{\"default\":[]}", "python_version < \"3.7\" and os_name == 'posix'", "1,2", "a:b", "tab\there", "new\nline", "pi|pe", "ha#sh", "x: y", "$1",
+	// values that spell a key name of either vocabulary
+	"deleted", "Tags", "error", "Blocked", "ident", "dev", "Opt", "Scope", "test", "KnownAs", "Selector", "redirect"}
 
 // op is one replayable operation.
 type op struct {
